@@ -179,42 +179,43 @@ impl Stim {
             Stim::Flip(..) => 14,
         }
     }
+    // (results of the calls are ignored: a tree may give any of these mutators a return value)
     pub fn apply(&self, m: &mut Machine) {
         match self {
-            Stim::KeyInt => m.trigger_key_interrupt(),
-            Stim::Continue => m.trigger_key_continue(),
-            Stim::CpuReset => m.cpu_reset(),
-            Stim::MasterReset => m.master_reset(),
-            Stim::Load(img) => m.load(img.bytecode()),
-            Stim::Mode(a) => m.set_step_mode(if *a { StepMode::Assembly } else { StepMode::Real }),
+            Stim::KeyInt => { let _ = m.trigger_key_interrupt(); }
+            Stim::Continue => { let _ = m.trigger_key_continue(); }
+            Stim::CpuReset => { let _ = m.cpu_reset(); }
+            Stim::MasterReset => { let _ = m.master_reset(); }
+            Stim::Load(img) => { let _ = m.load(img.bytecode()); }
+            Stim::Mode(a) => { let _ = m.set_step_mode(if *a { StepMode::Assembly } else { StepMode::Real }); }
             Stim::InReg(i, v) => match i & 3 {
-                0 => m.set_input_fc(*v),
-                1 => m.set_input_fd(*v),
-                2 => m.set_input_fe(*v),
-                _ => m.set_input_ff(*v),
+                0 => { let _ = m.set_input_fc(*v); }
+                1 => { let _ = m.set_input_fd(*v); }
+                2 => { let _ = m.set_input_fe(*v); }
+                _ => { let _ = m.set_input_ff(*v); }
             },
-            Stim::Di(v) => m.set_digital_input1(*v),
+            Stim::Di(v) => { let _ = m.set_digital_input1(*v); }
             Stim::Jumper(n, v) => {
                 if *n == 1 {
-                    m.set_jumper1(*v)
+                    let _ = m.set_jumper1(*v);
                 } else {
-                    m.set_jumper2(*v)
+                    let _ = m.set_jumper2(*v);
                 }
             }
             Stim::Uio(n, v) => match n {
-                1 => m.set_universal_input_output1(*v),
-                2 => m.set_universal_input_output2(*v),
-                _ => m.set_universal_input_output3(*v),
+                1 => { let _ = m.set_universal_input_output1(*v); }
+                2 => { let _ = m.set_universal_input_output2(*v); }
+                _ => { let _ = m.set_universal_input_output3(*v); }
             },
             Stim::Volt(w, bits) => {
                 let f = f32::from_bits(*bits);
                 match w {
-                    0 => m.set_temp(f),
-                    1 => m.set_analog_input1(f),
-                    _ => m.set_analog_input2(f),
+                    0 => { let _ = m.set_temp(f); }
+                    1 => { let _ = m.set_analog_input1(f); }
+                    _ => { let _ = m.set_analog_input2(f); }
                 }
             }
-            Stim::BusWrite(a, v) => m.raw_mut().bus_mut().write(*a, *v),
+            Stim::BusWrite(a, v) => { let _ = m.raw_mut().bus_mut().write(*a, *v); }
             Stim::BusRead(a) => {
                 let _ = m.bus().read(*a);
             }
